@@ -150,7 +150,7 @@ func (r *rewriter) selectStmt(c *astutil.Cursor, s *ast.SelectStmt) {
 		var body []ast.Stmt
 		switch comm := cc.Comm.(type) {
 		case *ast.SendStmt:
-			pre = append(pre, &ast.AssignStmt{Lhs: []ast.Expr{k}, Tok: token.DEFINE, Rhs: []ast.Expr{call(sel(vs, "CaseSend"), comm.Chan, comm.Value)}})
+			pre = append(pre, &ast.AssignStmt{Lhs: []ast.Expr{k}, Tok: token.DEFINE, Rhs: []ast.Expr{method(call(sel(vs, "Out"), comm.Chan), "Case", comm.Value)}})
 		case *ast.ExprStmt: // <-ch
 			u, ok := comm.X.(*ast.UnaryExpr)
 			if !ok || u.Op != token.ARROW {
